@@ -108,6 +108,8 @@ Refused(sch, shape, dir) ==
      \/ \E pre \in Prefixes(PS) : \E k1, k2 \in ChildKeys(PS, pre) : IsIdx(k1) # IsIdx(k2)     \* dict and list steps under one node
      \/ (dir = "in" /\ Collecting(sch.extra_in) /\ \E p \in PS : \E n \in 1..Len(p) : IsIdx(p[n]))  \* collecting extras with a list step
      \/ (dir = "in" /\ Collecting(sch.extra_in) /\ sch.aslist /\ L = {})
+     \* extra data is merged into the outermost mapping of the dump: there must be one
+     \/ (dir = "out" /\ sch.extra_out.p \in {"target", "extract"} /\ (NodeIsList(PS, <<>>) \/ (sch.aslist /\ L = {})))
 
 (* ------------------------------ data ------------------------------------------------- *)
 \* [c |-> "atom", a |-> "good"|"bad"|"none"|"xtra", f |-> n]      good / ill-typed value for field n, None, an extra value n
